@@ -102,6 +102,12 @@ theorem dead_stays_dead {w w' : World} {k : Key} (hd : DeadIssued w k) (hle : En
     DeadIssued w' k ∧ w'.entities.get k = none :=
   ⟨hd.mono hle, dead_get_none wf' (hd.mono hle)⟩
 
+/-- the same without well-formedness, for a key whose generation is not `0` (`SlotMap.dead_get_needs_wf`: one of
+    the two side conditions is needed) -/
+theorem dead_stays_dead' {w w' : World} {k : Key} (hd : DeadIssued w k) (hle : EntLe w w') (hk : k.gen ≠ 0) :
+    DeadIssued w' k ∧ w'.entities.get k = none :=
+  ⟨hd.mono hle, dead_get_none_of_gen_ne (hd.mono hle) hk⟩
+
 /-- an issued id stays issued along `EntLe` -/
 theorem issued_stays_issued {w w' : World} {k : Key} (hi : EntIssued w k) (hle : EntLe w w') : EntIssued w' k :=
   hi.mono hle
@@ -548,6 +554,8 @@ theorem setgen_unbounded_resurrects :
 #print axioms deliverOne_monotone
 #print axioms removeComponent_monotone
 #print axioms dead_stays_dead
+#print axioms dead_stays_dead'
+#print axioms Evenio.SlotMap.dead_get_needs_wf
 #print axioms dead_never_valid_again
 #print axioms valid_then_invalid_is_dead
 #print axioms removed_never_valid_again
